@@ -29,11 +29,17 @@ def fr(x):
 
 # ------------------------------------------------------------------ scenario -> config text
 def colvar_block(i, v):
-    L = ["colvar {", "  name v%d" % i, "  width %r" % v["w"], "  lowerBoundary -32", "  upperBoundary 32"]
+    L = ["colvar {", "  name v%d" % i, "  width %r" % v["w"]]
+    if not v.get("vec"):      # boundaries are for scalar variables only
+        L += ["  lowerBoundary %r" % v.get("lo", -32), "  upperBoundary %r" % v.get("hi", 32)]
     if v["tsf"] != 1:
         L.append("  timeStepFactor %d" % v["tsf"])
     if v.get("extra"):
         L += ["  " + x for x in v["extra"]]
+    if v.get("vec"):
+        L += ["  distanceVec {"] + (["    componentCoeff %r" % v["vec"]["coeff"]] if v["vec"].get("coeff", 1.0) != 1.0 else []) + [
+              "    group1 { atomNumbers %s }" % " ".join(str(a + 1) for a in v["vec"]["g1"]),
+              "    group2 { atomNumbers %s }" % " ".join(str(a + 1) for a in v["vec"]["g2"]), "  }"]
     for c in v["comps"]:
         L += ["  distanceZ {"]
         if c["coeff"] != 1.0:
@@ -63,7 +69,9 @@ def bias_block(sc, j):
     L = [kw + " {", "  name b%d" % j, "  colvars " + " ".join("v%d" % i for i in b["vars"])]
     if b["tsf"] != 1:
         L.append("  timeStepFactor %d" % b["tsf"])
-    if b["kind"] in ("H", "L"):
+    if b.get("vcenter"):
+        L += ["  centers (%r, %r, %r)" % tuple(float(x) for x in b["vcenter"]), "  forceConstant %r" % b["k"]]
+    elif b["kind"] in ("H", "L"):
         L += ["  centers " + vecs(b["centers"]), "  forceConstant %r" % b["k"]]
     elif b["kind"] == "W":
         L += ["  upperWalls " + vecs(b["centers"]), "  forceConstant %r" % b["k"]]
@@ -73,6 +81,8 @@ def bias_block(sc, j):
         L += ["  applyBias off", "  fullSamples 1"]
     elif b["kind"] == "FA":
         L += ["  fullSamples %d" % b.get("full", 2)]
+    if b.get("grid"):
+        L += ["  scaledBiasingForce on", "  scaledBiasingForceFactorsGrid sf_%d_%d.dat" % (sc["id"], j)]
     L.append("}")
     return L
 
@@ -86,8 +96,12 @@ def impl_order(sc, subset):
     return sorted(subset, key=lambda j: (RANK[sc["biases"][j]["kind"]], j))
 
 
-def config_text(sc, subset, scripted=False):
+def config_text(sc, subset, scripted=False, reverse=False):
     L = ["scriptedColvarForces on"] if scripted else []
+    if scripted and sc.get("after_biases"):
+        L.append("scriptingAfterBiases on")
+    if reverse:
+        subset = list(reversed(subset))
     for i, v in enumerate(sc["vars"]):
         L += colvar_block(i, v)
     for j in subset:
@@ -104,7 +118,7 @@ def scenario_lines(sc, subset, tag):
     if sc["it0"]:
         L.append("setstep %d" % sc["it0"])
     scripted = bool(sc.get("script_runs")) and tag.split(":")[-1] in sc["script_runs"]
-    L += ["forcecmd clear", "config EOF"] + config_text(sc, subset, scripted) + ["EOF"]
+    L += ["forcecmd clear", "config EOF"] + config_text(sc, subset, scripted, reverse=(tag.split(":")[-1] == "P")) + ["EOF"]
     L.append("show cv 1 bias 0 tf 1 af 0" if sc.get("showtf") else "show cv 0 bias 0 tf 0 af 0")
     for ev in sc["events"]:
         if ev[0] in ("S", "R"):
@@ -121,6 +135,8 @@ def scenario_lines(sc, subset, tag):
                     if g is not None:
                         L.append("forcecmd cv colvar v%d addforce %r" % (i, float(g)))
             L += ["step", "mdump"]
+            if sc["family"] != "ext":
+                L.append("script cv getenergy")
         elif ev[0] == "X":
             if ev[1] in subset:
                 L.append("script cv bias b%d set active %s" % (ev[1], "on" if ev[2] else "off"))
@@ -184,6 +200,8 @@ def model_case(sc, subset, fixed=FIXED, efix=EFIX):
             p += ["G"]
         else:
             p += ["C", hx(b.get("e", 0.0))]
+        g = b.get("grid")
+        p += (["S", hx(g["lo"]), hx(g["w"]), str(len(g["vals"]))] + [hx(x) for x in g["vals"]]) if g else ["N"]
     evs = [ev for ev in sc["events"] if ev[0] in ("S", "R") or ev[1] in subset]
     p.append(str(len(evs)))
     for ev in evs:
@@ -258,6 +276,11 @@ def parse_impl(lines):
             cur["config"] = l
         elif l.startswith("SCRIPT"):
             cur["script"].append(l)
+            if st is not None and "result=" in l and "getE" not in st:
+                try:
+                    st["getE"] = float(l.split("result=", 1)[1].split()[0])
+                except (ValueError, IndexError):
+                    pass
         elif l.startswith("STEP"):
             w = l.split()
             st = {"it": int(w[1]), "errc": w[2].split("=")[1], "E": None, "A": {}, "V": [], "B": [], "TF": {}, "CV": {}}
@@ -374,7 +397,7 @@ def gen_scenario(r, k, family="mix"):
         A = [j for j in range(nb) if m[j]]
         B = [j for j in range(nb) if not m[j]]
     return {"id": k, "family": family, "natoms": natoms, "mass": mass, "vars": vars_, "biases": biases, "it0": it0,
-            "events": events, "A": A, "B": B}
+            "events": events, "A": A, "B": B, "perm_run": family == "mix" and r.random() < 0.4}
 
 
 # ------------------------------------------------------------------ python specification of the property
@@ -439,13 +462,19 @@ def spec_run(sc, subset):
                         Fs.append(-sign * k * diff)
                 else:
                     Fs.append(Fr(0))
+            if b.get("grid"):
+                # scaledBiasingForce: the force (not the energy) is multiplied by the factor of the bin of the first variable
+                g = b["grid"]
+                bn = (xs[b["vars"][0]] - fr(g["lo"])) // fr(g["w"])
+                fac = fr(g["vals"][int(bn)]) if 0 <= bn < len(g["vals"]) else Fr(1)
+                per[j]["fac"] = fac
             per[j]["E"] = e
             per[j]["F"] = Fs
             applies = b["kind"] not in ("G", "F")
             if applies:
                 E += e
                 for n, i in enumerate(b["vars"]):
-                    fvar[i] += b["tsf"] * Fs[n]
+                    fvar[i] += b["tsf"] * Fs[n] * per[j].get("fac", 1)
         af = [[Fr(0)] * 3 for _ in range(sc["natoms"])]
         for i, cs in enumerate(vin):
             for c in cs:
@@ -518,8 +547,14 @@ def first_error(isteps):
 
 # ------------------------------------------------------------------ oracles on the implementation alone
 def replay_of(sc, subsets, extra=None):
-    d = {"kind": "scenario", "scenario": sc, "scripts": {t: "\n".join(scenario_lines(sc, s, t)) for t, s in subsets.items()},
-         "model_cases": {t: model_case(sc, s) for t, s in subsets.items()}}
+    def mc(s_):
+        try:
+            return model_case(sc, s_)
+        except Exception:
+            return None        # families the pipeline model is not run on (vector variables, ABF, ...)
+    d = {"kind": "scenario", "scenario": {k_: v_ for k_, v_ in sc.items() if not k_.startswith("_")},
+         "scripts": {t: "\n".join(scenario_lines(sc, s, t)) for t, s in subsets.items()},
+         "model_cases": {t: mc(s) for t, s in subsets.items()}}
     if extra:
         d.update(extra)
     return d
@@ -692,6 +727,32 @@ def oracle_errors(run, sc, tag, subset, isteps):
             return
 
 
+def oracle_getenergy(run, sc, tag, subset, isteps):
+    """O11: `cv getenergy` (total_bias_energy) after a step = the energy handed to the engine at that step = sum over the
+    biases that count, also at steps where some sleep (no extended variables in these families: no variable energy)"""
+    if sc["family"] == "ext":
+        return
+    for s in range(first_error(isteps)):
+        im = isteps[s]
+        if "getE" in im and im["E"] is not None and not close(im["getE"], im["E"], 2e-5):
+            run.violation("pipeline:getenergy", "scenario %d run %s step %d (it=%d): cv getenergy returns %r, the energy added to the engine was %r"
+                          % (sc["id"], tag, s, im["it"], im["getE"], im["E"]), replay_of(sc, {tag: subset}, {"step_index": s}))
+            return
+
+
+def oracle_order(run, sc, R):
+    """O12: the same biases written in the reverse order (the module keeps configuration order within a bias type): same
+    atom forces and energy at every step (C08_order_independent)"""
+    sAB, sP = R["AB"]["steps"], R["P"]["steps"]
+    for s in range(min(first_error(sAB), first_error(sP))):
+        fa, fp = atomf(sAB[s], sc["natoms"]), atomf(sP[s], sc["natoms"])
+        if any(not close(fa[a][q], fp[a][q]) for a in range(sc["natoms"]) for q in range(3)) or not close(sAB[s]["E"], sP[s]["E"]):
+            AB = sorted(sc["A"] + sc["B"])
+            run.violation("pipeline:order", "scenario %d step %d (it=%d): forces/energy %s / %r with the biases in configuration order, %s / %r in the reverse order"
+                          % (sc["id"], s, sAB[s]["it"], fa, sAB[s]["E"], fp, sP[s]["E"]), replay_of(sc, {"AB": AB, "P": AB}, {"step_index": s}))
+            return
+
+
 def oracle_var_tsf(run, sc, tag, subset, isteps):
     """O4: a variable with factor n is evaluated and biased only at multiples of n"""
     ne = first_error(isteps)
@@ -834,7 +895,8 @@ def scripted_scenario(r, k):
         g = [dy(r, -4, 4, 2) if r.random() < 0.8 else None for _ in range(nv)]
         ev.append(("S", [[0.0, 0.0, dy(r, -3, 3, 2)] for _ in range(2)] + [[0.0, 0.0, 0.0]], None, g))
     return {"id": k, "family": "scripted", "natoms": 3, "mass": [1.0, 1.0, 1.0], "vars": vars_, "biases": biases, "it0": 0,
-            "events": ev, "A": list(range(len(biases))), "B": [], "script_runs": ["AB", "B"], "force_B": True}
+            "events": ev, "A": list(range(len(biases))), "B": [], "script_runs": ["AB", "B"], "force_B": True,
+            "after_biases": r.random() < 0.5}
 
 
 def oracle_scripted(run, sc, R):
@@ -906,6 +968,84 @@ def oracle_abf_coupling(run, sc, R):
     return nz
 
 
+def scaled_scenario(r, k):
+    """scaledBiasingForce: the force of a bias is multiplied by the factor read from scaledBiasingForceFactorsGrid at the bin
+    of the current value (1 outside the grid); one variable with a 4-8 bin grid, values inside, on bin edges and outside"""
+    w = r.choice([0.5, 1.0])
+    nb = r.choice([4, 6, 8])
+    lo = dy(r, -2, 0, 1)
+    v = {"tsf": 1, "w": w, "lo": lo, "hi": lo + nb * w, "comps": [{"main": [0], "ref": [], "axis": 2, "coeff": r.choice([1.0, 2.0]), "np": 1}]}
+    biases = []
+    for _ in range(r.randint(1, 2)):
+        b = {"kind": r.choice(["H", "L", "W", "A"]), "tsf": r.choice([1, 2, 3]), "vars": [0], "k": r.choice([1.0, 2.0]), "centers": [dy(r, -1, 1, 2)],
+             "stop": 4.0, "dec": False}
+        if r.random() < 0.8:
+            b["grid"] = {"lo": lo, "w": w, "vals": [r.choice([0.0, 0.5, 1.0, 2.0, 3.0]) for _ in range(nb)]}
+        biases.append(b)
+    ev = []
+    for s_ in range(r.randint(8, 12)):
+        m = r.random()
+        x = lo + r.randint(-2, nb + 2) * w if m < 0.3 else dy(r, lo - 1, lo + nb * w + 1, 3)
+        z = x / v["comps"][0]["coeff"]
+        ev.append(("S", [[0.0, 0.0, z], [0.0, 0.0, 0.0]]))
+    nbs = len(biases)
+    return {"id": k, "family": "scaled", "natoms": 2, "mass": [1.0, 1.0], "vars": [v], "biases": biases, "it0": r.choice([0, 0, 3]),
+            "events": ev, "A": [0], "B": list(range(1, nbs))}
+
+
+def vector_scenario(r, k):
+    """a non-scalar variable (distanceVec between a 1-atom and a 1-2 atom group) with two harmonic restraints with factors 1-3:
+    the non-scalar branch of colvar::communicate_forces"""
+    g2 = r.choice([[1], [1, 2]])
+    mass = [1.0, 1.0, 1.0]
+    if len(g2) == 2:
+        mass[1], mass[2] = r.choice(GROUPS2)
+    v = {"tsf": 1, "w": r.choice([0.5, 1.0, 2.0]), "comps": [], "vec": {"g1": [0], "g2": g2, "coeff": r.choice([1.0, 2.0, -1.0, 0.5])}}
+    biases = [{"kind": "H", "tsf": r.choice([1, 2, 3]), "vars": [0], "k": r.choice([0.5, 1.0, 2.0]),
+               "vcenter": [dy(r, -2, 2, 2) for _ in range(3)]} for _ in range(2)]
+    ev = [("S", [[dy(r, -3, 3, 2) for _ in range(3)] for _ in range(3)]) for _ in range(r.randint(6, 10))]
+    return {"id": k, "family": "vector", "natoms": 3, "mass": mass, "vars": [v], "biases": biases, "it0": r.choice([0, 0, 2, 5]),
+            "events": ev, "A": [0], "B": [1]}
+
+
+def oracle_vector(run, sc, tag, subset, isteps):
+    """O13: python recomputation for the vector variable: F_b = -k/w^2 (x - c) (x = COM2 - COM1), contributing at multiples of
+    its factor with factor * F_b; group2 atoms get +F m_i/M2, the group1 atom -F; energy = sum 1/2 k/w^2 |x - c|^2"""
+    v = sc["vars"][0]
+    w = fr(v["w"])
+    calcs = [ev for ev in sc["events"] if ev[0] == "S"]
+    g1, g2 = v["vec"]["g1"], v["vec"]["g2"]
+    M2 = sum(fr(sc["mass"][a]) for a in g2)
+    for s in range(min(first_error(isteps), len(calcs))):
+        it = isteps[s]["it"]
+        pos = calcs[s][1]
+        cf = fr(v["vec"].get("coeff", 1.0))
+        x = [cf * (sum(fr(sc["mass"][a]) * fr(pos[a][q]) for a in g2) / M2 - fr(pos[g1[0]][q])) for q in range(3)]
+        F = [Fr(0)] * 3
+        E = Fr(0)
+        for j in subset:
+            b = sc["biases"][j]
+            if it % b["tsf"] != 0:
+                continue
+            kk = fr(b["k"]) / (w * w)
+            d = [x[q] - fr(b["vcenter"][q]) for q in range(3)]
+            E += kk / 2 * sum(t * t for t in d)
+            for q in range(3):
+                F[q] += b["tsf"] * (-kk * d[q])
+        want = [[Fr(0)] * 3 for _ in range(sc["natoms"])]
+        for a in g2:
+            for q in range(3):
+                want[a][q] += cf * F[q] * fr(sc["mass"][a]) / M2
+        for q in range(3):
+            want[g1[0]][q] -= cf * F[q]
+        got = atomf(isteps[s], sc["natoms"])
+        if any(not close(got[a][q], float(want[a][q])) for a in range(sc["natoms"]) for q in range(3)) or not close(isteps[s]["E"], float(E)):
+            run.violation("pipeline:vector:atom-force", "scenario %d run %s step %d (it=%d): forces %s energy %r; factor * harmonic force on the 3-vector variable gives %s energy %r"
+                          % (sc["id"], tag, s, it, got, isteps[s]["E"], [[float(t) for t in u] for u in want], float(E)),
+                          replay_of_scripted(sc, s))
+            return
+
+
 def coupling_scenario(r, k):
     """lagged engine forces that include the Colvars forces, a one-atom distanceZ variable with subtractAppliedForce and
     outputTotalForce, two restraints: the total force reported at step t+1 must be the engine's own force of step t,
@@ -975,13 +1115,23 @@ def run_batch(unit, model, scs, d):
             subsets["0"] = []
         if sc.get("force_B"):
             subsets = {"AB": AB, "A": sc["A"], "B": []}
+        if sc.get("perm_run") and len(AB) >= 2:
+            subsets["P"] = AB          # the same biases, written in the reverse order in the configuration
         sc["_subsets"] = subsets
         for t, sub in subsets.items():
             tag = "%d:%s" % (sc["id"], t)
             L += scenario_lines(sc, sub, tag)
-            if all(sc["biases"][j]["kind"] not in ("F", "FA") for j in sub) and sc["family"] not in ("ext", "scripted"):
+            if all(sc["biases"][j]["kind"] not in ("F", "FA") for j in sub) and sc["family"] not in ("ext", "scripted", "vector") and t != "P":
                 M.append(model_case(sc, sub))
                 keys.append(tag)
+    for sc in scs:
+        for j, b in enumerate(sc["biases"]):
+            if b.get("grid"):
+                g = b["grid"]
+                with open(os.path.join(d, "sf_%d_%d.dat" % (sc["id"], j)), "w") as f:
+                    f.write("# 1\n# %r %r %d 0\n\n" % (float(g["lo"]), float(g["w"]), len(g["vals"])))
+                    for q, x in enumerate(g["vals"]):
+                        f.write("%r %r\n" % (float(g["lo"]) + (q + 0.5) * float(g["w"]), float(x)))
     rc, out, err = V.run_lines(unit, L, timeout=1200, cwd=d)
     impl = parse_impl(out)
     rc2, mout, err2 = V.run_lines(model, M, timeout=1200)
@@ -1007,7 +1157,7 @@ def check(run):
     if st is None:
         return
     model, exes = st
-    unit = exes["c08unit"]
+    unit = os.environ.get("C08_UNIT_EXE") or exes["c08unit"]     # e.g. a --coverage build of the same harness
     d = V.scratch("C08")
 
     scs = []
@@ -1026,6 +1176,12 @@ def check(run):
         k += 1
     for _ in range(n_cp):
         scs.append(coupling_scenario(r, k))
+        k += 1
+    for _ in range(16 if quick else 400):
+        scs.append(scaled_scenario(r, k))
+        k += 1
+    for _ in range(10 if quick else 300):
+        scs.append(vector_scenario(r, k))
         k += 1
     for _ in range(12 if quick else 300):
         scs.append(ext_scenario(r, k))
@@ -1065,6 +1221,8 @@ def check(run):
             for t, sub in subsets.items():
                 tag = "%d:%s" % (sc["id"], t)
                 isteps = R[t]["steps"]
+                if t == "P":
+                    continue
                 sub = impl_order(sc, sub)
                 if any([b["name"] for b in stp["B"]] != ["b%d" % j for j in sub] for stp in isteps):
                     run.mismatch("pipeline:bias-order", {"scenario": sc["id"], "run": t}, [b["name"] for b in isteps[0]["B"]], sub)
@@ -1073,15 +1231,20 @@ def check(run):
                 if tag in mod:
                     msteps = parse_model_line(mod[tag], sc["natoms"])
                     compare_model(run, sc, t, sub, msteps, isteps)
-                if sc["family"] not in ("nonbiasing", "ext", "abfcoupling", "scripted"):
+                if sc["family"] == "vector":
+                    oracle_vector(run, sc, t, sub, isteps)
+                if sc["family"] not in ("nonbiasing", "ext", "abfcoupling", "scripted", "vector"):
                     oracle_spec(run, sc, t, sub, isteps)
                     w = oracle_impulse(run, sc, t, sub, isteps)
                     windows += w
                     nontriv = nontriv or w > 0
                     oracle_var_tsf(run, sc, t, sub, isteps)
                 oracle_errors(run, sc, t, sub, isteps)
+                oracle_getenergy(run, sc, t, sub, isteps)
                 if t in ("AB",) and any(sum(b["act"] for b in stp["B"]) >= 2 for stp in isteps):
                     nontriv = True
+            if "P" in R:
+                oracle_order(run, sc, R)
             if "AB" in R:
                 if sc["family"] == "scripted":
                     oracle_scripted(run, sc, R)
@@ -1133,7 +1296,7 @@ def replay(path):
             print("==== implementation, run %s" % t)
             print("\n".join(V.run_lines(unit, script.split("\n"), cwd=d)[1]))
             print("==== model, run %s" % t)
-            for part in V.run_lines(model, [rp["model_cases"][t]])[1]:
+            for part in (V.run_lines(model, [rp["model_cases"][t]])[1] if rp.get("model_cases", {}).get(t) else ["(no model case for this family)"]):
                 print(part.replace(" ; ", "\n"))
     else:
         print(json.dumps(rp, indent=1)[:6000])
